@@ -316,6 +316,17 @@ def varint_rules(c):
             has_mask = "& 240u8) != 0u8" in r
             rows.append(("gamedig::games::minecraft::types::get_varint|VARINT|overlong", has_i4 and has_mask,
                          "branches: %s" % r[:300], f["span"]))
+            # the over-long check must be taken before the loop can be left through the continuation-bit test
+            s_i4 = [bi for bi, blk in enumerate(b.blocks) if blk["term"] and blk["term"]["k"] == "switch" and "== 4i32" in b.render_operand(blk["term"]["d"], 5, names=False)]
+            s_msb = [bi for bi, blk in enumerate(b.blocks) if blk["term"] and blk["term"]["k"] == "switch" and "& 128u8) == 0u8" in b.render_operand(blk["term"]["d"], 5, names=False).replace("var:u8", "128u8")]
+            if not s_msb:
+                # msb is a local constant (let msb = 0b1000_0000): match on the shape `(byte & <x>) == 0`
+                s_msb = [bi for bi, blk in enumerate(b.blocks) if blk["term"] and blk["term"]["k"] == "switch"
+                         and re.search(r"& [^)]*\) == 0u8", b.render_operand(blk["term"]["d"], 5, names=False)) and "240u8" not in b.render_operand(blk["term"]["d"], 5, names=False)]
+            okd = bool(s_i4) and bool(s_msb) and all(b.dominates(s_i4[0], x) for x in s_msb)
+            rows.append(("gamedig::games::minecraft::types::get_varint|VARINT|overlong-before-exit", okd,
+                         "the 5th-byte check (block %s) dominates the continuation-bit exit (block %s)" % (s_i4[:1], s_msb) if okd else
+                         "the continuation-bit exit %s is not dominated by the 5th-byte check %s: an over-long final byte can leave the loop unchecked" % (s_msb, s_i4), f["span"]))
     return rows
 
 
@@ -331,6 +342,8 @@ def run(tier, config):
         rep.add(key, "C17:" + key.split("|")[1].lower(), ok, detail, at)
     for key, ok, detail, at in read_advance(c) + bufferread_pairing(c) + varint_rules(c):
         rep.add(key, "C17:" + key.split("|")[1].lower(), ok, detail, at)
+    from .. import tracespec as TS
+    TS.compare(rep, c, "C17", "C17:kernel-table")
     n = K.ledger_obligations(rep, c, "C17", _is_c17_site, kinds=("assert", "call"), rules=rules)
     K.loop_obligations(rep, c, lambda f: f["path"].startswith("gamedig::buffer::") or "minecraft::types::" in f["path"])
     if config == "baseline":
